@@ -8,6 +8,7 @@ import (
 	"fmt"
 	"math"
 	"sync"
+	"time"
 
 	"github.com/iotaledger/iota.go/consts"
 	"github.com/iotaledger/iota.go/trinary"
@@ -40,17 +41,7 @@ func powNonceSweep(c *core.Ctx, id string, version int, workers int, until int) 
 		}
 	}
 	width := uint64(math.MaxUint64) / uint64(workers)
-	decode := func(t trinary.Trits) (uint64, bool) {
-		var b [8]byte
-		for g := 0; g < 8; g++ {
-			v, ok := refB1T6Group(t[192+6*g : 198+6*g])
-			if !ok {
-				return 0, false
-			}
-			b[g] = v
-		}
-		return binary.LittleEndian.Uint64(b[:]), true
-	}
+	decode := powDecodeNonce
 	type suspect struct {
 		st          uint64
 		batch, lane int
@@ -180,7 +171,45 @@ func powNonceSweep(c *core.Ctx, id string, version int, workers int, until int) 
 	}
 }
 
+// powDecodeNonce reads the nonce a block carries: trits 192..239, b1t6, little endian (the layout the property states).
+func powDecodeNonce(t trinary.Trits) (uint64, bool) {
+	if len(t) < 240 {
+		return 0, false
+	}
+	var b [8]byte
+	for g := 0; g < 8; g++ {
+		v, ok := refB1T6Group(t[192+6*g : 198+6*g])
+		if !ok {
+			return 0, false
+		}
+		b[g] = v
+	}
+	return binary.LittleEndian.Uint64(b[:]), true
+}
+
+// powIntercepted finds out whether Mine hashes through a package the overlay instruments: without that the scripted
+// hashes below are never consulted and a scripted sweep would simply mine for real (for ever, with its targets).
+func powIntercepted(version int) bool {
+	before := vbct.Intercepted.Load()
+	ctx, cancel := context.WithTimeout(context.Background(), 30*time.Second)
+	defer cancel()
+	core.Catch(func() {
+		if version == 1 {
+			pow.New(1).Mine(ctx, []byte("probe"), 3.0/13) // one trailing zero
+		} else {
+			powv2.New(1).Mine(ctx, []byte("probe"), 1)
+		}
+	})
+	vsched.PassThroughWait()
+	vsched.PassThroughPanics()
+	return vbct.Intercepted.Load() > before
+}
+
 func powNonceSweeps(c *core.Ctx, id string, version int) {
+	if !powIntercepted(version) {
+		c.Set("nonce_encoding_sweep", "skipped: Mine does not hash through a package the overlay instruments")
+		return
+	}
 	until := 1030 // start nonces of workers >= 1 are not 64-aligned: the carry out of byte 1 happens inside a batch before 1024
 	for _, n := range []int{1, 2, 3, 5, 7, 16} {
 		powNonceSweep(c, id, version, n, until)
